@@ -237,7 +237,11 @@ def o_fail_stop(ex, V):
         if bad[0] != len(inv["calls"]) - 1:
             V("C06.api_call_after_failed_call", {"inv": k, "calls": [(us, o) for t, us, o in inv["calls"]]})
         if inv["end"]["end"] in ("returned", "suspended"):
-            V("C06.success_or_pending_after_checkpoint_failure", {"inv": k, "end": inv["end"]})
+            sync_flags = (inv.get("calls_sync") or [[]] * (bad[0] + 1))[bad[0]]
+            V("C06.success_or_pending_after_checkpoint_failure",
+              {"inv": k, "end": inv["end"], "failed_call": inv["calls"][bad[0]][1],
+               # the failed call carried only non-blocking updates (nobody was waiting for it) and it was the last call
+               "async_only": bool(sync_flags) and not any(sync_flags) and bad[0] == len(inv["calls"]) - 1})
         if inv["end"]["end"] == "hung" or inv.get("limit"):
             V("C06.invocation_hangs_after_checkpoint_failure", {"inv": k, "end": inv["end"]})
         for ev in inv["raw_trace"]:
@@ -340,6 +344,8 @@ def o_wfc_state(ex, V):
                 returned[tuple(ev[1])] = o.get("ok")
             elif ev[0] == "upd" and ev[1]["kind"] == "wfc" and ev[1]["action"] in ("RETRY", "SUCCEED") and tuple(ev[1]["pos"]) in returned:
                 want = returned.pop(tuple(ev[1]["pos"]))
+                if specs[tuple(ev[1]["pos"])].get("cserdes"):
+                    continue    # a user-supplied text format: judged by o_custom_serdes on the states actually handed over
                 if want is not None and ev[1]["payload"] != want:
                     # the state recorded for the next poll / as the result is the one the check returned, exactly
                     V("C13.recorded_state_is_not_the_returned_state", {"inv": k, "pos": ev[1]["pos"], "returned": want, "recorded": ev[1]["payload"],
@@ -363,11 +369,30 @@ def o_wfc_state(ex, V):
                 if r is not None and r["status"] in ("READY", "STARTED") and r["attempt"] >= 1:
                     if ev[3] != r["attempt"] + 1:
                         V("C13.poll_number", {"pos": ev[1], "attempt": ev[3], "recorded_retries": r["attempt"]})
-                    if r["result"] not in (None, "", "e") and ev[4] != r["result"]:
+                    if r["result"] not in (None, "", "e") and ev[4] != r["result"] and not (specs.get(p) or {}).get("cserdes"):
                         V("C13.state_not_threaded", {"pos": ev[1], "received": ev[4], "recorded": r["result"]})
             elif ev[0] == "upd" and ev[1]["kind"] == "wfc" and ev[1]["action"] == "RETRY":
                 if (ev[1]["delay"] or 0) < 1:
                     V("C13.continue_delay_below_one", {"update": ev[1]})
+
+
+@oracle("C13")
+def o_custom_serdes(ex, V):
+    """Scripts whose single wait_for_condition uses a user-supplied serializer (flag `cserdes`, no crashes): poll n+1
+    is handed exactly what poll n returned, the first poll the initial state; polls are numbered 1..k."""
+    top = ex["script"][0] if ex["script"] else {}
+    w = top["body"][0] if top.get("op") == "child" and top.get("body") else top
+    if not (w.get("op") == "wfc" and w.get("cserdes")):
+        return
+    toks = [o.get("ok") for o in w["check"]]
+    polls = [ev for inv in ex["invs"] for ev in inv["trace"] if ev[0] == "enter" and ev[2] == "wfc"]
+    for ev in polls:
+        a = ev[3] or 1
+        want = w["init"] if a < 2 else toks[min(a - 2, len(toks) - 1)]
+        if ev[4] != want:
+            V("C13.state_not_threaded", {"poll": a, "received": ev[4], "previous_poll_returned": want})
+    if [ev[3] for ev in polls] != list(range(1, len(polls) + 1)) or (ex["finished"] and len(polls) != len(toks)):
+        V("C13.poll_number", {"polls": [ev[3] for ev in polls], "expected": len(toks)})
 
 
 def last_call(inv):
@@ -495,6 +520,16 @@ def o_large(ex, V):
                     V("C16.large_result_not_recorded_before_empty_response", {"inv": k, "exec_result": er})
             elif len((out.get("Result") or "").encode("utf-8")) > rl:
                 V("C16.response_exceeds_limit", {"inv": k, "size_bytes": len(out["Result"].encode("utf-8")), "size_chars": len(out["Result"]), "limit": rl})
+        if out is not None and rl is not None and out.get("Status") == "FAILED":
+            msg = ((out.get("Error") or {}).get("ErrorMessage") or "")
+            if len(msg.encode("utf-8")) > rl:
+                # the error alone is over the response limit: it has to be recorded as the execution's result instead
+                V("C16.error_response_exceeds_limit", {"inv": k, "message_bytes": len(msg.encode("utf-8")), "limit": rl,
+                                                       "error_type": (out.get("Error") or {}).get("ErrorType")})
+            elif not out.get("Error"):
+                er = inv.get("exec_result")
+                if not er or er.get("action") != "FAIL" or not er.get("error"):
+                    V("C16.large_error_not_recorded_before_empty_response", {"inv": k, "exec_result": er})
 
 
 @oracle("C16")
@@ -516,7 +551,7 @@ def o_large_replay_equal(ex, V):
 
 
 ALL_ORACLES = [o_large, o_large_replay_equal, o_completed_yields, o_no_reentry, o_replay_transparent, o_write_ahead, o_amo, o_amo_start_recorded, o_fail_stop, o_suspension, o_valid_history, o_step_retries,
-               o_wfc_state, o_callbacks, o_logger, o_ids]
+               o_wfc_state, o_custom_serdes, o_callbacks, o_logger, o_ids]
 
 
 def run_oracles(ctx, ex, component, only_prop=None):
@@ -708,6 +743,24 @@ def extra(ctx, prop):
             run_oracles(ctx, ex, "engine.large_final.nonascii", only_prop=prop)
             ctx.case((json.dumps(script, sort_keys=True), json.dumps(ex["plans"], sort_keys=True)) if ex["finished"] else None)
             ctx.count("large_final.nonascii")
+    if prop in ("C16", "C18"):
+        # an oversized ERROR ends the execution: raised by handler code itself, or the recorded error of a failed durable
+        # operation that the handler lets escape (live in the invocation that recorded it, and replayed in a later one)
+        for i in range(ctx.scale(30, 600)):
+            big = "y" * ctx.rng.choice([200, 400])
+            fail = {"op": "step", "body": [{"err": {"cls": "Boom", "msg": big}}], "amo": False, "retry": {"max": 1, "delays": [], "noretry": []}, "catch": False}
+            kind = ctx.rng.randrange(3)
+            if kind == 0:
+                script = [fail]
+            elif kind == 1:
+                script = [dict(fail, catch=True), {"op": "wait", "secs": 1}, dict(fail, catch=False)]     # the same position cannot repeat: second fails live
+            else:
+                script = [{"op": "wait", "secs": 1}, {"op": "child", "body": [fail], "limit": 2000, "summary": "", "catch": False}]
+            ex = E.run_execution(script, ctx.rng.randrange(1 << 30), crash_p=0.0, fault_p=0.0,
+                                 limits={"ckpt_limit": 2000, "resp_limit": ctx.rng.choice([100, 150])})
+            run_oracles(ctx, ex, "engine.large_error", only_prop="C16")
+            ctx.case((json.dumps(script, sort_keys=True), json.dumps(ex["plans"], sort_keys=True)) if ex["finished"] else None)
+            ctx.count("large_error")
     if prop in ("C04", "C01"):
         # recorded results that can no longer be deserialized in a later invocation (format change between deploys):
         # the execution may fail, but a completed step - at-most-once in particular - is never run again
@@ -777,6 +830,20 @@ def extra(ctx, prop):
             run_oracles(ctx, ex, "engine.rejected_invoke", only_prop=prop)
             ctx.case((json.dumps(script, sort_keys=True), json.dumps(ex["plans"], sort_keys=True)) if len(ex["invs"]) >= 2 else None)
             ctx.count("invoke.rejected_payload")
+    if prop == "C13":
+        # a user-supplied serializer with its own format: poll n+1 receives exactly what poll n returned, over several
+        # invocations (oracle-only; judged on the states the check function was actually handed)
+        for i in range(ctx.scale(25, 500)):
+            k = ctx.rng.randrange(2, 5)
+            toks = [ctx.rng.choice(["s", "i5", "t", "d", "lst", "dto", "uni"]) for _ in range(k)]
+            script = [{"op": "wfc", "init": ctx.rng.choice(["z", "s"]), "check": [{"ok": t_} for t_ in toks],
+                       "decide": [ctx.rng.choice([1, 2])] * (k - 1) + [None], "catch": True, "cserdes": True}]
+            if ctx.rng.random() < 0.5:
+                script = [{"op": "child", "body": script, "limit": 2000, "summary": "", "catch": True}]
+            ex = E.run_execution(script, ctx.rng.randrange(1 << 30), crash_p=0.0, fault_p=0.0)
+            run_oracles(ctx, ex, "engine.custom_serdes", only_prop=prop)
+            ctx.case((json.dumps(script, sort_keys=True), json.dumps(ex["plans"], sort_keys=True)) if len(ex["invs"]) >= 2 else None)
+            ctx.count("wfc.custom_serdes")
     if prop == "C12":
         from harness import comp_strategy
         comp_strategy.run(ctx)
